@@ -102,6 +102,12 @@ def run_case(case, ctx):
     kinds += mid + ["multiscale"]
     post = [["filter", "refinement"][int(x)] for x in rng.integers(0, 2, int(rng.integers(0, 3)))]
     kinds += post
+    if case["i"] == 0:
+        # directed constructor of two gating classes: validation before the multiscale step, matching window of 1
+        method, w = "sad", 1
+        if "validation" not in mid:
+            kinds.insert(kinds.index("multiscale"), "validation")
+            mid = mid + ["validation"]
     keys = pipes.keys_for(kinds, suffix_first={"multiscale"} if rng.random() < 0.2 else None)
     params = {}
     for k in keys:
